@@ -153,7 +153,7 @@ def gen_b64enc(rng, S):
     for n in lens:
         data = rng.bytes(n)
         req = 4 * ((n + 2) // 3)
-        for cap in caps_around(req, rng, 18):
+        for cap in caps_around(req, rng, 8):
             k += 1
             framed = k % 6 == 0
             want = k % 11 != 0
@@ -770,7 +770,7 @@ def gen_misc(rng, S):
 FAMILIES = [
     # name, generator, shards (quick), workload scale in the quick tier (thorough = 12x that, 4x the shards)
     ("b64enc", gen_b64enc, 1, 1), ("b64dec", gen_b64dec, 3, 1), ("hex", gen_hex, 1, 2), ("num2str", gen_num2str, 4, 1),
-    ("str2num", gen_str2num, 3, 2), ("utf8", gen_utf8, 1, 3), ("asn1", gen_asn1, 2, 2), ("mem", gen_mem, 2, 3),
+    ("str2num", gen_str2num, 3, 2), ("utf8", gen_utf8, 1, 3), ("asn1", gen_asn1, 2, 1), ("mem", gen_mem, 2, 3),
     ("stream", gen_stream, 1, 2), ("replace", gen_replace, 2, 1), ("xmlcodec", gen_xmlcodec, 3, 1),
     ("xmlget", gen_xmlget, 3, 1), ("ini", gen_ini, 2, 1), ("bt", gen_bt, 3, 1), ("args", gen_args, 2, 1),
     ("line", gen_line, 1, 3), ("crc", gen_crc, 1, 1), ("misc", gen_misc, 1, 3),
